@@ -65,6 +65,7 @@ class Board:
         self.stop_at_done = case.get('stop_at_done', True)
         self.stop = False
         self.watchdog = arm_watchdog()
+        self.sched_pos = 0
 
     # ---- bookkeeping helpers used by observers
     def count(self, key, n=1):
@@ -213,31 +214,42 @@ class Board:
             return c.lines['irq'] or c.lines['fiq'] or bool(arm.registers.event_register)
         return True
 
+    def advance(self):
+        """one iteration of the scheduler loop: deliver due events, then one tick of one core (or a clock jump).
+        Returns False when the run is over."""
+        if self.host_errors is None:
+            self.host_errors = []
+        if self.tick >= self.max_ticks or self.stop:
+            return False
+        while self.ev_pos < len(self.events) and self.events[self.ev_pos][1]['tick'] <= self.tick:
+            self.apply_event(self.events[self.ev_pos][1])
+            self.ev_pos += 1
+        cand = [i for i in range(len(self.cores)) if self.runnable(i)]
+        if not cand:
+            # everything asleep/finished: jump the clock to the next event, or stop
+            if self.ev_pos < len(self.events) and self.pending_work():
+                self.tick = max(self.tick, self.events[self.ev_pos][1]['tick'])
+                self.count('probe.clock-jump')
+                return True
+            return False
+        if len(self.cores) == 1:
+            ci = 0
+        elif self.schedule is not None:
+            want = self.schedule[self.sched_pos % len(self.schedule)] if self.schedule else 0
+            self.sched_pos += 1
+            ci = want if want in cand else cand[0]
+        else:
+            ci = cand[self.tick % len(cand)]
+        self.step_core(ci)
+        self.tick += 1
+        return True
+
+    def pending_work(self):
+        return any(not c.dead and not (c.finished and self.stop_at_done) for c in self.cores)
+
     def run(self):
-        self.host_errors = []
-        sched_pos = 0
-        while self.tick < self.max_ticks and not self.stop:
-            while self.ev_pos < len(self.events) and self.events[self.ev_pos][1]['tick'] <= self.tick:
-                self.apply_event(self.events[self.ev_pos][1])
-                self.ev_pos += 1
-            cand = [i for i in range(len(self.cores)) if self.runnable(i)]
-            if not cand:
-                # everything asleep/finished: jump the clock to the next event, or stop
-                if self.ev_pos < len(self.events) and any(not c.dead and not (c.finished and self.stop_at_done) for c in self.cores):
-                    self.tick = max(self.tick, self.events[self.ev_pos][1]['tick'])
-                    self.count('probe.clock-jump')
-                    continue
-                break
-            if len(self.cores) == 1:
-                ci = 0
-            elif self.schedule is not None:
-                want = self.schedule[sched_pos % len(self.schedule)] if self.schedule else 0
-                sched_pos += 1
-                ci = want if want in cand else cand[0]
-            else:
-                ci = cand[self.tick % len(cand)]
-            self.step_core(ci)
-            self.tick += 1
+        while self.advance():
+            pass
         return self
 
     def digest(self):
